@@ -508,6 +508,74 @@ def make_export_fmt(oid, fmt, history):
                       timeout_s=600, query_timeout_s=200)
 
 
+def make_export_cached(oid, what):
+    """the caller edits the object handed out by to_geodataframe() / to_linecollection(); a later call with the same arguments must not show the edit"""
+    from . import stubs
+    PE = ["exclude", "split", "ignore"]
+
+    def setup(ctx):
+        ctx.const("what", what)
+        lon = _reals(ctx, "lon", N_NODE, -170, 170)
+        lat = _reals(ctx, "lat", N_NODE, -80, 80)
+        return dict(lon=lon, lat=lat, pe=ctx.enum("periodic_elements", PE), cache=ctx.bool("cache_first_call"))
+
+    def call(g, pe):
+        return g.to_geodataframe(periodic_elements=pe) if what == "gdf" else g.to_linecollection(periodic_elements=pe)
+
+    def run(ctx, inp):
+        w = world()
+        undo = stubs.install(w)
+        old = sc.NL_UF[0]
+        sc.NL_UF[0] = True
+        try:
+            g = C.clone_grid_from({"node_lon": (["n_node"], inp["lon"]), "node_lat": (["n_node"], inp["lat"]), "face_node_connectivity": (["n_face", "n_max_face_nodes"], ROWS, C.FN_ATTRS)})
+            pe = inp["pe"].concrete()
+            cache = bool(inp["cache"])
+            first = g.to_geodataframe(periodic_elements=pe, cache=cache) if what == "gdf" else g.to_linecollection(periodic_elements=pe, cache=cache)
+            if what == "gdf":
+                first["caller_column"] = 1
+            else:
+                first.caller_edit = 1
+                first.mutations.append(("caller", "set_linewidth"))
+            second = call(g, pe)
+            if what == "gdf":
+                clean = "caller_column" not in second.columns
+            else:
+                clean = not hasattr(second, "caller_edit") and ("caller", "set_linewidth") not in second.mutations
+            ctx.prove(f"an edit of the object handed out by the first call is not visible in what the next call (same arguments) hands out",
+                      clean, regions={"cached_object_handed_out": cache}, note=f"periodic_elements={pe} cache={cache}")
+        finally:
+            sc.NL_UF[0] = old
+            undo()
+
+    def replay(v):
+        lon, lat = [float(x) for x in v["lon"]], [float(x) for x in v["lat"]]
+        pe, cache = PE[int(v["periodic_elements"])], bool(v["cache_first_call"])
+        for lo, la in ((lon, lat), C.default_lonlat(N_NODE)):
+            try:
+                g = C.real_grid(ROWS, lo, la)
+                if what == "gdf":
+                    first = g.to_geodataframe(periodic_elements=pe, cache=cache)
+                    first["caller_column"] = 1
+                    second = g.to_geodataframe(periodic_elements=pe)
+                    if "caller_column" in second.columns:
+                        return f"to_geodataframe(periodic_elements='{pe}', cache={cache}) handed out the Grid's cached frame: after the caller added a column, the next to_geodataframe() reports columns {list(second.columns)}"
+                else:
+                    first = g.to_linecollection(periodic_elements=pe, cache=cache)
+                    first.set_linewidth(7.5)
+                    second = g.to_linecollection(periodic_elements=pe)
+                    if list(np.atleast_1d(second.get_linewidth())) == [7.5]:
+                        return f"to_linecollection(periodic_elements='{pe}', cache={cache}) handed out the Grid's cached collection: after the caller's set_linewidth(7.5) the next to_linecollection() has linewidth {second.get_linewidth()}"
+            except Exception:      # noqa: BLE001  (degenerate model polygons: try the default positions)
+                continue
+        return None
+
+    return Obligation(oid, f"caller edit of the object returned by {'to_geodataframe' if what == 'gdf' else 'to_linecollection'} vs the next call", setup, run, replay, exact=False,
+                      functions=["Grid.to_geodataframe", "Grid.to_linecollection", "geometry._grid_to_polygon_geodataframe", "geometry._grid_to_matplotlib_linecollection"],
+                      stubs=["matplotlib / shapely / spatialpandas recording stubs (props/stubs.py)"],
+                      bounds="2 faces over 5 nodes, positions symbolic, periodic_elements and the cache flag of the first call symbolic")
+
+
 def obligations(tier):
     obs = [make_inputs_topo(f"C19.inputs.topo.{c}", c) for c in ("none", "minus1", "std")]
     obs += [make_inputs_ugrid("C19.inputs.ugrid.int64.std.si1", "int64", "std", 1), make_inputs_ugrid("C19.inputs.ugrid.int64.minus1.si0", "int64", "minus1", 0),
@@ -517,5 +585,6 @@ def obligations(tier):
     obs += [make_copy_export("C19.copy.export.line.orig", "orig", "line"), make_copy_export("C19.copy.export.poly.copy", "copy", "poly")]
     obs += [make_export(f"C19.export.{e}.{h}", e, h) for e in ("values_inplace", "drop_var", "attrs", "conn_inplace") for h in ("fresh", "with_topology_var")]
     obs += [make_export("C19.export.values_inplace.edges_first", "values_inplace", "edges_first")]
+    obs += [make_export_cached("C19.export.cached.gdf", "gdf"), make_export_cached("C19.export.cached.line", "line")]
     obs += [make_export_fmt(f"C19.export.{f}.all_arrays.{h}", f, h) for f in ("ugrid", "scrip", "exodus") for h in ("fresh", "derived")]
     return [o for o in obs if tier in o.tiers]
